@@ -34,6 +34,11 @@ CHECKS = {
     text="For corpus configurations and generated libraries, random subsets of the splicer names of a plain run get generated user bodies (plausible statements, random printable text, blank lines, own indentation, trailing blanks, lines ending in + - &, embedded tabs) through splicer files (command line and YAML splicer list), splicer_code and declaration-level splicers and their combinations; oracle: each supplied block equals its body line by line modulo leading/trailing blanks, unsupplied blocks keep the plain run's body, text outside markers never appears, the declaration-level body wins a deliberate conflict, and every block survives feeding the generated files back.",
     note="Trusted: block extractor regexes; domain: lines not starting in column one with # @ ^ + - 0 and not containing 'splicer begin/end'. Two known findings (duplicate splicer names) are listed in known_findings.json.",
     design="DESIGN.md §2 C12"),
+ "C17": dict(
+    technique="exception / parser-position / watchdog monitors around declast.check_decl and the command-line driver under grammar-based mutation fuzzing, attribute name x value enumeration, documented illegal combinations and YAML structure fuzz; findings keyed by mechanism",
+    text="~24k (quick) / ~380k (thorough) declarations (documented seeds, single-token mutations, random token sequences) go through the real parser with a monitor on the escaping exception class, the diagnostic text, the parser's position at return and a 5 s watchdog; ~2k / ~12k descriptions (every attribute x value, illegal combinations, must-reject inputs, wrong YAML kinds, misspelt keys, CLI misuse, and all valid corpus/generated descriptions) go through the full pipeline. Held = every rejection is a RuntimeError/SystemExit-style diagnostic that quotes the input, no accepted text leaves the parser before EOF or unbalanced, documented inputs are never rejected, must-reject inputs are never accepted.",
+    note="Trusted: classification of diagnostic classes (RuntimeError, NotImplementedError, SystemExit, OSError family). Acceptance of arbitrary mutated text is only judged by EOF/balance/must-reject list, not by a reference C++ grammar (that is C09). Known findings listed in known_findings.json.",
+    design="DESIGN.md §2 C17"),
 }
 
 NOT_APPLICABLE = []
